@@ -921,6 +921,10 @@ struct HashMgrSim : Sim {
                         execute_jump(p, e, r);
                         return;
                 }
+                if (p.get("mode") == 5) {
+                        execute_edge(p, e, r);
+                        return;
+                }
                 St s;
                 s.d = &g_algos[p.get("algo") % A_N];
                 s.f = &s.d->fams[p.get("family") % s.d->fams.size()];
@@ -1068,6 +1072,8 @@ struct HashMgrSim : Sim {
         void execute_endure(const Plan &p, Env &e, RunResult &r);
         Plan generate_endure(uint64_t seed, uint64_t run_index);
         void execute_jump(const Plan &p, Env &e, RunResult &r);
+        void execute_edge(const Plan &p, Env &e, RunResult &r);
+        Plan generate_edge(uint64_t seed, uint64_t run_index);
         Plan generate_jump(uint64_t seed, uint64_t run_index);
 };
 
@@ -1585,6 +1591,112 @@ void HashMgrSim::execute_jump(const Plan &p, Env &e, RunResult &r)
         e.check_mem_all("end of run");
 }
 
+// ---------------------------------------------------------------------- edge: pending bytes + a segment of almost 2^32 bytes
+// A context with 1 .. block-1 bytes pending receives one more segment of 2^32-63 .. 2^32-1 bytes: every "pending + len" computed in
+// 32 bits wraps. Only the beginning of that submit matters (the copy that completes the pending block), so the call runs under a
+// CPU limit of 0.4 s and is abandoned there when the family hashes inline (base, sb_sse4, ...): nothing is observed afterwards.
+// Families with lanes just queue the job and return; the manager is then abandoned. All 28 pairs in turn.
+Plan HashMgrSim::generate_edge(uint64_t seed, uint64_t run_index)
+{
+        Rng g(seed, "plan-edge");
+        Plan p;
+        p.cfg["mode"] = 5;
+        std::vector<std::pair<int, int>> pairs;
+        for (int a = 0; a < A_N; a++)
+                for (size_t f = 0; f < g_algos[a].fams.size(); f++)
+                        pairs.emplace_back(a, (int) f);
+        auto pr = pairs[run_index % pairs.size()];
+        p.cfg["algo"] = pr.first;
+        p.cfg["family"] = pr.second;
+        p.cfg["api"] = g.chance(1, 3) ? API_ISAL : API_FAMILY;
+        p.cfg["pending"] = 1 + (int64_t) g.below(g_algos[pr.first].block - 1);
+        p.cfg["short_by"] = (int64_t) g.below((uint64_t) p.cfg["pending"]); // the big segment has 2^32 - 1 - short_by bytes: pending + len >= 2^32
+        p.cfg["last"] = (int64_t) g.below(2);
+        Op o;
+        o.kind = OP_LONG;
+        p.ops.push_back(o);
+        return p;
+}
+
+void HashMgrSim::execute_edge(const Plan &p, Env &e, RunResult &r)
+{
+        build_window();
+        St s;
+        s.d = &g_algos[p.get("algo") % A_N];
+        s.f = &s.d->fams[p.get("family") % s.d->fams.size()];
+        s.api = (int) p.get("api");
+        s.env = &e;
+        s.r = &r;
+        s.plan_seed = p.seed;
+        s.tag = std::string(s.d->name) + "/" + s.f->name + "/" + (s.api == API_FAMILY ? "family" : "isal") + "/edge";
+        const AlgoDesc &d = *s.d;
+        e.poison_regs = true;
+        s.mgr = e.mem.alloc(d.mgr_size, 64, START_FLUSH, &e.hidden, "manager", R_OBJECT);
+        s.ctx_out = (uint64_t *) e.mem.alloc(8, 8, END_FLUSH, &e.hidden, "ctx_out slot", R_OUTPUT);
+        s.cl.resize(1);
+        Client &c = s.cl[0];
+        c.ref = RefHash(d.a);
+        // the context ends flush against an inaccessible page: a copy that runs past its extra-block buffer faults at once
+        c.ctx = e.mem.alloc(d.ctx_size, 64, END_FLUSH, &e.hidden, "context", R_OBJECT);
+        u32(c.ctx, d.off_error) = ISAL_HASH_CTX_ERROR_NONE;
+        u32(c.ctx, d.off_status) = ISAL_HASH_CTX_STS_COMPLETE;
+        c.user_tag = mix64(p.seed, 0x75e7);
+        u64(c.ctx, d.off_user) = c.user_tag;
+        void *sv[3] = { *d.disp_init, *d.disp_submit, *d.disp_flush };
+        if (s.api != API_FAMILY) {
+                *d.disp_init = s.f->init;
+                *d.disp_submit = s.f->submit;
+                *d.disp_flush = s.f->flush;
+        }
+        struct Restore {
+                const AlgoDesc &d;
+                void **sv;
+                ~Restore()
+                {
+                        *d.disp_init = sv[0];
+                        *d.disp_submit = sv[1];
+                        *d.disp_flush = sv[2];
+                }
+        } restore{ d, sv };
+        if (s.api == API_FAMILY)
+                e.call((std::string("_") + d.name + "_ctx_mgr_init_" + s.f->name).c_str(), s.f->init, { U(s.mgr) });
+        else
+                e.call((std::string("isal_") + d.name + "_ctx_mgr_init").c_str(), d.isal_init, { U(s.mgr) });
+        // FIRST: 'pending' bytes (less than a block: they stay in the context)
+        uint32_t pend = (uint32_t) std::max<int64_t>(1, std::min<int64_t>(p.get("pending"), (int64_t) d.block - 1));
+        int rc;
+        c.started = true;
+        c.total = pend;
+        c.last_sent = false;
+        c.nseg = 1;
+        uint64_t ret = do_submit(s, c.ctx, g_window, pend, ISAL_HASH_FIRST, &rc);
+        if (ret == (uint64_t) (uintptr_t) c.ctx)
+                handed_back(s, 0, "its own submit", false);
+        else {
+                c.in_flight = true;
+                s.inflight++;
+                process_return(s, ret, 0, "submit");
+                for (int guard = 0; c.in_flight && guard < 4; guard++)
+                        op_flush(s, false);
+        }
+        // the big segment
+        uint32_t big = 0xffffffffu - (uint32_t) (p.get("short_by") % 64);
+        r.cov.hit("fault_pending_bytes_plus_segment_of_almost_2^32_bytes");
+        e.ev(mix64(OP_LONG, ((uint64_t) pend << 40) ^ big));
+        e.call_cpu_limit_s = 0.4;
+        e.cancel_is_benign = true;
+        c.total += big;
+        c.nseg++;
+        ret = do_submit(s, c.ctx, g_window + pend, big, p.get("last") ? ISAL_HASH_LAST : ISAL_HASH_UPDATE, &rc);
+        e.call_cpu_limit_s = 0;
+        e.cancel_is_benign = false;
+        r.cov.hit("probe_edge_submit_returned_without_being_cancelled");
+        e.check_buf(c.ctx, "submit");
+        e.check_buf(s.mgr, "submit");
+        // the manager is abandoned with the job in flight (or, if a fast family finished it inline, with the context handed back)
+        e.check_mem_all("end of run");
+}
+
 // ---------------------------------------------------------------------- endurance: one long-lived manager
 // One manager, never more than two jobs in flight (most lanes stay idle), tens of GiB hashed through the flush path as a sequence of
 // 2^28-byte ENTIRE jobs of the periodic stream, each compared with the cached reference. Whatever a manager accumulates over its
@@ -1782,6 +1894,13 @@ struct HashFillSim : HashMgrSim {
 };
 } // namespace
 Sim *make_hashfill_sim() { return new HashFillSim(); }
+namespace {
+struct HashEdgeSim : HashMgrSim {
+        const char *name() const override { return "hashedge"; }
+        Plan generate(uint64_t seed, const std::string &, bool, uint64_t idx) override { return generate_edge(seed, idx); }
+};
+} // namespace
+Sim *make_hashedge_sim() { return new HashEdgeSim(); }
 namespace {
 struct HashJumpSim : HashMgrSim {
         const char *name() const override { return "hashjump"; }
